@@ -139,3 +139,21 @@ def isHeavierGuard : Tok → Bool
   | _ => false
 
 end Verif.Skel
+
+namespace Verif.Skel
+
+/-- a call with exactly these printed arguments -/
+def isCallA (n : String) (a : List String) : Tok → Bool
+  | .call m b => m == n && b == a
+  | _ => false
+
+/-- `for … range x` -/
+def isRange (x : String) : Tok → Bool
+  | .loop ["range", y] [] => y == x
+  | _ => false
+
+def isLoop : Tok → Bool
+  | .loop .. => true
+  | _ => false
+
+end Verif.Skel
